@@ -46,6 +46,7 @@ type Scenario struct {
 	MixedTmo     bool // two consumers of one channel with different negotiated msg_timeouts (C04)
 	PauseBacklog bool // topic paused in the middle of fanning out a backlog (C03)
 	Lonely       bool // an extra topic without any channel until the drain (C13: it is reported all the same)
+	Topo         bool // nsqd runs the topology-aware-consumption experiment with a zone and a region; consumers announce the same zone, the same region only, or neither (C01: zone/regionLocalMsgChan are part of the channel queue)
 	Lookupd      int  // 0: none configured; 1: an nsqlookupd that stays up; 2: one that nsqd connected to and that is gone by the time the topics are created
 }
 
@@ -74,6 +75,9 @@ func (s Scenario) String() string {
 	}
 	if s.PauseBacklog {
 		feat += " pause-backlog"
+	}
+	if s.Topo {
+		feat += " topology"
 	}
 	if s.Lookupd != 0 {
 		feat += []string{"", " lookupd", " lookupd-gone"}[s.Lookupd]
@@ -115,6 +119,9 @@ func genScenario(mode string, seed int64) Scenario {
 		// independent stream: the other choices for a given seed stay what they were
 		s.Lookupd = []int{0, 0, 1, 2}[rand.New(rand.NewSource(seed*104729+11)).Intn(4)]
 		s.Lonely = mode == "core" && rand.New(rand.NewSource(seed*15485863+5)).Intn(2) == 0
+	}
+	if mode == "core" || mode == "contend" || mode == "flow" || mode == "churn" || mode == "timing" {
+		s.Topo = rand.New(rand.NewSource(seed*32452843+13)).Intn(3) == 0
 	}
 	switch mode {
 	case "contend":
@@ -193,6 +200,7 @@ type Run struct {
 	pubs         []*pubRec
 	byKey        map[string]*pubRec
 	connSeq      int64
+	topoSeq      int64
 	stop         int32 // consumers/publishers/admin pause their activity when 1
 	fails        []string
 	incon        string
@@ -488,6 +496,17 @@ func (r *Run) newConsumer(topic, channel string, person int, rdy int64) (*consum
 		extra["sample_rate"] = r.sc.SampleRate
 	}
 	r.features(extra)
+	if r.sc.Topo {
+		// a third of the consumers each: in the daemon's zone, in its region only, elsewhere
+		switch atomic.AddInt64(&r.topoSeq, 1) % 3 {
+		case 0:
+			extra["topology_zone"], extra["topology_region"] = "z1", "r1"
+		case 1:
+			extra["topology_zone"], extra["topology_region"] = "z2", "r1"
+		default:
+			extra["topology_zone"], extra["topology_region"] = "z9", "r9"
+		}
+	}
 	ident := cn.identify
 	if r.sc.ReIdentify {
 		ident = cn.identifyTwice
@@ -741,6 +760,10 @@ func (r *Run) nodeOpts(o *nsqd.Options) {
 		o.MsgTimeout = 200 * time.Millisecond
 		o.MaxMsgTimeout = 600 * time.Millisecond
 		o.MaxReqTimeout = 300 * time.Millisecond
+	}
+	if r.sc.Topo {
+		o.Experiments = []string{string(nsqd.TopologyAwareConsumption)}
+		o.TopologyRegion, o.TopologyZone = "r1", "z1"
 	}
 	if r.sc.Vanish {
 		o.MaxMsgSize = 8 << 20 // the stalled-consumer step publishes one message larger than any socket buffer
